@@ -283,6 +283,7 @@ impl Report {
         let seed = self.seed;
         let strict = self.strict;
         let trace = std::env::var("VERIF_TRACE").is_ok();
+        let survey = std::env::var("VERIF_SURVEY").is_ok();
         // slow-case monitor: a case that runs for minutes wedges the run; report it as
         // inconclusive (exit 2) together with its tape, never as a violation
         let current: Vec<Mutex<Option<(Instant, Vec<u16>)>>> = (0..CHUNKS).map(|_| Mutex::new(None)).collect();
@@ -354,6 +355,11 @@ impl Report {
                             let res = f(&tape, &mut case);
                             *current[chunk].lock().unwrap() = None;
                             if let Err(e) = res {
+                                if survey {
+                                    // triage aid: tally failure clauses instead of stopping
+                                    *stats.labels.entry(format!("FAIL:{}", e.clause)).or_default() += 1;
+                                    continue;
+                                }
                                 fail = Some((chunk, tape, e));
                                 stop.store(true, Ordering::SeqCst);
                                 break;
@@ -622,6 +628,9 @@ impl Report {
         if !self.strict {
             std::fs::write(format!("{}/{}.json", dir, self.id), serde_json::to_string_pretty(&ev).unwrap())
                 .expect("write evidence");
+        }
+        for (k, v) in self.stats.labels.iter().filter(|(k, _)| k.starts_with("FAIL:")) {
+            println!("SURVEY {} x{}", k, v);
         }
         println!(
             "[{}] tier={} seed={} evaluations={} distinct_nontrivial={} known_hits={} wall={:.1}s",
